@@ -13,6 +13,8 @@ const CONFIGS = [
   ['MANDATORY-COMMENTS', cfg({ methods: STRING_METHODS, verbosity: 'MANDATORY', comments: true })]
 ]
 
+const ALARMING = ['unreachable', 'RuntimeError: unreachable executed', 'memory access out of bounds', 'index out of bounds', 'recursive use of an object detected', 'null pointer passed to rust', 'panicked at', 'wasm', 'Maximum call stack size exceeded', 'ENOENT', 'EACCES', 'timeout', 'aborted', 'fatal', 'out of memory', 'TypeError', 'not a function', 'undefined']
+
 function programs (rng) {
   const id = rng.int(100000)
   return [
@@ -21,7 +23,10 @@ function programs (rng) {
     ['optchain', `function o${id} (a) {\n  return a?.trim().substring(1)\n}\nexports.o = o${id}\n`],
     ['notmodified', `function n${id} (a) {\n  return a * 2 + 1 - a\n}\nmodule.exports = n${id}\nconst text = 'some-literal-text-${id}'\n`],
     ['literal-only', `function l${id} () {\n  return 'a' + 'b'\n}\nexports.l = l${id}\n`],
-    ['syntax-error', `function s${id} (a) {\n  return a + ) \n}\n`]
+    ['syntax-error', `function s${id} (a) {\n  return a + ) \n}\n`],
+    // a failing call whose diagnostic (file name + source excerpt) carries words that error-classifying code tends to look for
+    ['syntax-error-with-alarming-words', `function e${id} (a) {\n  // ${rng.pick(ALARMING)}: ${rng.pick(ALARMING)}\n  return a + ) // ${rng.pick(ALARMING)}\n}\n`],
+    ['name-collision', `function c${id} (a, b) {\n  const __datadog_test_0 = a /* ${rng.pick(ALARMING)} */\n  return __datadog_test_0 + b()\n}\n`]
   ]
 }
 
@@ -48,13 +53,14 @@ function runHistory (rng, tag) {
   const pkg = P.loadPackage()
   const progs = programs(rng)
   const root = `/srv/pk/${tag}`
-  const paths = [`${root}/app/index.js`, `${root}/app/node_modules/dep/index.js`, `${root}/lib/index.js`, `${root}/app/util.js`, `${root}/lib/util.js`, `${root}/app/node_modules/dep/lib/util.js`]
+  const w1 = rng.pick(ALARMING).replace(/[:/]/g, ' '); const w2 = rng.pick(ALARMING).replace(/[:/]/g, ' ')
+  const paths = [`${root}/${w1}/index.js`, `${root}/lib/${w2}.js`, `${root}/app/index.js`, `${root}/app/node_modules/dep/index.js`, `${root}/lib/index.js`, `${root}/app/util.js`, `${root}/lib/util.js`, `${root}/app/node_modules/dep/lib/util.js`]
   const instances = new Map() // cfgName:rewriterKind -> instance (kept for the whole history)
   const inst = (cfgName, config, kind) => { const k = cfgName + ':' + kind; if (!instances.has(k)) instances.set(k, new pkg[kind](config)); return instances.get(k) }
   const calls = []
   const len = rng.range(8, 28)
   // few programs and few configurations per history, so that identical code meets different paths often
-  const localProgs = rng.sample(progs, rng.range(2, 4))
+  const localProgs = rng.sample(progs, rng.range(2, 5))
   const localCfgs = rng.sample(CONFIGS, rng.range(1, 2))
   for (let step = 0; step < len; step++) {
     const [kind, code] = rng.pick(localProgs)
